@@ -48,6 +48,31 @@ Theorem C17_accept_clears_challenge : forall g s c r pref s' outs ev K ch,
              /\ p_pk p' = Some K.
 Proof. exact accept_clears_challenge. Qed.
 
+(* The accepted challenge belongs to the CURRENT connection of the entry.
+   Full statement (FALSE for the code): between the issue of the accepted
+   challenge and its acceptance the connection of c was neither re-opened nor
+   closed.  A static (outgoing) entry keeps challenge_for_peer across
+   Network::handle_new_peer: if a challenge is delivered while the entry is not
+   connected (a message in flight after a disconnect), the challenge the node
+   stores then survives the re-dial and a response over it is accepted on the new
+   connection: *)
+Theorem C17_accepted_on_this_connection_refuted :
+  exists tr s p l1 l2 l3, Reach g1 1 1 tr s
+    /\ aget 1 (peers s) = Some p /\ p_status p = Connected /\ p_pk p = Some 2
+    /\ tr = l3 ++ EAccepted 1 2 6 :: l2 ++ EIssued 1 6 :: l1
+    /\ In (EReset 1) l2.
+Proof. exact accepted_on_this_connection_refuted. Qed.
+
+(* in every run without that event (no static entry re-opened while a challenge
+   was stored; in particular every run whose static entries are only re-dialled
+   after a processed disconnect, and every incoming connection): mark_as_disconnected
+   and initiate_handshake discard / replace the challenge of the old connection *)
+Theorem C17_accepted_on_this_connection : forall g n f0 tr s c K ch,
+  Reach g n f0 tr s -> ~ Known_C17_stale tr -> In (EAccepted c K ch) tr ->
+  exists l1 l2 l3, tr = l3 ++ EAccepted c K ch :: l2 ++ EIssued c ch :: l1
+                   /\ forall e, In e l2 -> closes c e = false.
+Proof. exact accepted_on_this_connection. Qed.
+
 (* ---- rejected responses are inert ---- *)
 
 (* In ANY state: a response that carries no core version, or arrives when no
@@ -55,7 +80,8 @@ Proof. exact accept_clears_challenge. Qed.
    signature does not verify under the response's key over the outstanding
    challenge of THIS connection (made for another challenge: replayed, reflected,
    lifted from another connection; or a bad signature; or another key), or whose
-   core version is incompatible, is handled without panic and
+   core version is incompatible, or whose key differs from the key the entry
+   already records, is handled without panic and
    - leaves every other connection entry unchanged,
    - leaves address_to_peers unchanged,
    - makes the node sign nothing,
@@ -79,57 +105,52 @@ Proof. exact bad_response_inert. Qed.
    the statement above is about every OTHER connection, as the property text is. *)
 
 (* ---- panics ----
-   Full statement (FALSE for the pinned code):
-     forall g n f0 tr s a site, Reach g n f0 tr s -> step g s a <> Panic site. *)
-Theorem C17_no_panic_refuted :
-  exists tr s a, Reach g1 1 1 tr s /\ act_ok g1 s a = true
-                 /\ step g1 s a = Panic SITE_KEY_CHANGED.
-Proof. exact no_panic_refuted. Qed.
-
-(* outside the class "a response on an entry that already records a different
-   key" no handler panics (the join_as_reconnection assert and the expect() in
-   Network::handle_handshake_response are unreachable) *)
+   no handler panics in any reachable state, whatever is delivered (unguarded
+   since fix ae2aeaa turned the key-change assert_eq! into a rejection; the
+   join_as_reconnection assert and the expect() are unreachable) *)
 Theorem C17_no_panic : forall g n f0 tr s a site,
-  Reach g n f0 tr s -> ~ Known_C17_keychange g s a -> step g s a <> Panic site.
-Proof. exact no_panic_guarded'. Qed.
+  Reach g n f0 tr s -> step g s a <> Panic site.
+Proof. exact no_panic. Qed.
 
 (* ---- address_to_peers ---- *)
 
-(* the map never points at an entry of another key (unguarded) *)
+(* the map never points at an entry of another key *)
 Theorem C17_address_sound : forall g n f0 tr s K c,
   Reach g n f0 tr s -> aget K (addr s) = Some c ->
   exists p, aget c (peers s) = Some p /\ p_pk p = Some K.
 Proof. intros g n f0 tr s K c HR. apply (address_sound g n f0 tr s HR). Qed.
 
-(* Full statement (FALSE for the code): every entry that records key K — in
-   particular every connection Connected under K — is reachable through the map:
-     forall ..., Reach g n f0 tr s -> aget c (peers s) = Some p -> p_pk p = Some K ->
-                 exists c', aget K (addr s) = Some c'.
-   Since fix f517868 a reconnection no longer loses the key
-   (C17_reconnection_keeps_key); the purge still does: *)
-Theorem C17_address_complete_refuted_by_purge :
-  exists tr s p, Reach g1 1 1 tr s
-    /\ aget 2 (peers s) = Some p /\ p_status p = Connected /\ p_pk p = Some 2
-    /\ aget 2 (addr s) = None.
-Proof. exact address_complete_refuted_by_purge. Qed.
-
-(* in every run in which remove_disconnected_peers purged nothing — reconnection
-   merges included — every entry that records K is reachable through the map,
-   and the map entry is an entry of that key *)
+(* every entry that records key K — in particular every connection Connected
+   under K — is reachable through the map, and the map entry is an entry of that
+   key (unguarded since fixes f517868 and 88efef8: reconnection merges and purges
+   included) *)
 Theorem C17_address_complete : forall g n f0 tr s c p K,
-  Reach g n f0 tr s -> ~ Known_C17_purged tr ->
+  Reach g n f0 tr s ->
   aget c (peers s) = Some p -> p_pk p = Some K ->
   exists c' p', aget K (addr s) = Some c' /\ aget c' (peers s) = Some p' /\ p_pk p' = Some K.
-Proof. exact address_complete_guarded'. Qed.
+Proof. exact address_complete'. Qed.
 
-(* non-vacuity of the guard: a run WITH a reconnection merge (entry 2 removed),
-   after which the key is mapped to the new connection *)
+(* regression examples for the three fixed classes *)
 Example C17_reconnection_keeps_key :
   exists tr s p, Reach g1 1 1 tr s
     /\ In (ERemoved 2) tr /\ aget 2 (peers s) = None
     /\ aget 3 (peers s) = Some p /\ p_status p = Connected /\ p_pk p = Some 2
     /\ aget 2 (addr s) = Some 3.
 Proof. exact reconnection_keeps_key. Qed.
+
+Example C17_purge_keeps_key :
+  exists tr s p, Reach g1 1 1 tr s
+    /\ In (EPurged 3) tr /\ aget 3 (peers s) = None
+    /\ aget 2 (peers s) = Some p /\ p_status p = Connected /\ p_pk p = Some 2
+    /\ aget 2 (addr s) = Some 2.
+Proof. exact purge_keeps_key. Qed.
+
+Example C17_keychange_rejected :
+  exists tr s p, Reach g1 1 1 tr s
+    /\ aget 2 (peers s) = Some p /\ p_status p = Disconnected /\ p_pk p = Some 3
+    /\ p_chal p = None /\ aget 3 (addr s) = Some 2 /\ aget 4 (addr s) = None
+    /\ accepted_count 6 tr = 0%nat.
+Proof. exact keychange_rejected. Qed.
 
 (* ---- the boundary of what the signature proves ----
    C17_connected_authentic says that a signature by K over the challenge of c
@@ -166,7 +187,7 @@ Example C17_example :
     /\ aget 2 (addr s) = Some 2 /\ aget 4 (addr s) = Some 1.
 Proof. exact honest_run. Qed.
 
-(* a response that is rejected for each of the four reasons, on a state where a
+(* a response that is rejected for each of the five reasons, on a state where a
    challenge is outstanding *)
 Example C17_example_rejects :
   let p := set_chal (set_status new_peer Connecting) (Some 1) in
@@ -175,7 +196,8 @@ Example C17_example_rejects :
   /\ rejects g1 p (mkR 2 (Sig 2 7) 2 vA vW)
   /\ rejects g1 p (mkR 2 SigBad 2 vA vW)
   /\ rejects g1 p (mkR 2 (Sig 3 1) 2 vA vW)
-  /\ rejects g1 p (mkR 2 (Sig 2 1) 2 (mkV 1 3 3) vW).
+  /\ rejects g1 p (mkR 2 (Sig 2 1) 2 (mkV 1 3 3) vW)
+  /\ rejects g1 (mkP Connecting false (Some 1) (Some 3) vA vW (mkL 0 0) None) (mkR 2 (Sig 2 1) 2 vA vW).
 Proof.
   cbv zeta. unfold rejects. repeat split.
   - left. reflexivity.
@@ -183,17 +205,18 @@ Proof.
   - right; right; left. exists 1. split; reflexivity.
   - right; right; left. exists 1. split; reflexivity.
   - right; right; left. exists 1. split; reflexivity.
-  - right; right; right. reflexivity.
+  - right; right; right; left. reflexivity.
+  - right; right; right; right. reflexivity.
 Qed.
 
 Print Assumptions C17_connected_authentic.
 Print Assumptions C17_challenge_accepted_once.
 Print Assumptions C17_accept_clears_challenge.
+Print Assumptions C17_accepted_on_this_connection_refuted.
+Print Assumptions C17_accepted_on_this_connection.
 Print Assumptions C17_bad_response_inert.
-Print Assumptions C17_no_panic_refuted.
 Print Assumptions C17_no_panic.
 Print Assumptions C17_address_sound.
-Print Assumptions C17_address_complete_refuted_by_purge.
 Print Assumptions C17_address_complete.
 Print Assumptions C17_reflection_connected.
 Print Assumptions C17_relay_connected.
